@@ -1,15 +1,133 @@
 /-
   C07: the necessary conditions for sbeppc to accept a schema that the C07
-  theorems assume (names, uniqueness, explicit values, attribute ranges, layout).
+  theorems assume (names, uniqueness, explicit values, attribute ranges, layout,
+  and the validator rules of bf3e3ae / ceb9ad3 / c7e26c2: header members used as
+  integers have an integer or char type; every value a header filler writes is
+  representable in the member it is written to; the valid values of an enum are
+  pairwise distinct), and the two problem classes those rules exclude.
+
+  The three new conditions are mirrored in the terms of this model (the header
+  member primitive `headerMemberPrim?`, the block lengths of `Schema.Resolve`
+  that the filler sites carry, enumerator values as numbers); the validator's own
+  formulation (`Sbepp.Spec.Rules`, proved equivalent to the validator model in
+  C08) is evaluated next to them by the driver (`rulesHold`), and
+  `Lemmas/C07Accept.lean` proves that for an integer member "in range" here is
+  `representable member_prim (toString value)` there.
 -/
 import Sbepp.Gen.Literals
 import Sbepp.Gen.Scope
+import Sbepp.Spec.Rules
 
 namespace Sbepp.Gen
 open Sbepp Sbepp.Schema
 
+namespace Literals
+
+/-- every site below the `<messageSchema>` element itself -/
+def bodySites (s : SchemaDef) : List Site :=
+  s.types.flatMap (elemSites s.types "types." false) ++ s.messages.flatMap (messageSites s)
+
+/-- a header-filler constant (`header.member({n})`, the only sites that brace an unsigned number into the type
+    of a primitive): the member has an integer or char type (bf3e3ae) that can hold the value (ceb9ad3) -/
+def Site.fillerOk (site : Site) : Bool :=
+  match site.target, site.text with
+  | .prim p, .nat n => !p.isFloat && inPrimRange p (n : Int)
+  | _, _ => true
+
+/-- schema id, version, template ids, the block length of every level, the numbers of groups and data members
+    (where the header has the optional counters) fit the header members they are written to -/
+def fillersAccepted (s : SchemaDef) : Bool := (bodySites s).all Site.fillerOk
+
+end Literals
+
+/-! ### header members used as integers -/
+
+/-- a member of a level header the generated code or the runtime uses as an integer; `breaks`: generated code
+    is ill-formed when the member has a floating-point type (pointer arithmetic with the block length,
+    `make_signed` of the group size, `size()` of a data member) -/
+structure HeaderUse where
+  entity : String
+  header : String
+  member : String
+  breaks : Bool
+  deriving Repr
+
+mutual
+  def groupHeaderUses (path : String) : GroupDef → List HeaderUse
+    | .mk n _ dim _ _ inner datas _ =>
+      [⟨path ++ n, dim, "blockLength", true⟩, ⟨path ++ n, dim, "numInGroup", true⟩,
+       ⟨path ++ n, dim, "numGroups", false⟩, ⟨path ++ n, dim, "numVarDataFields", false⟩] ++
+      datas.map (fun d => ⟨path ++ n ++ "." ++ d.name, d.type, "length", true⟩) ++
+      groupsHeaderUses (path ++ n ++ ".") inner
+  def groupsHeaderUses (path : String) : List GroupDef → List HeaderUse
+    | [] => []
+    | g :: gs => groupHeaderUses path g ++ groupsHeaderUses path gs
+end
+
+def messageHeaderUses (s : SchemaDef) (m : MessageDef) : List HeaderUse :=
+  let entity := "messages." ++ m.name
+  -- the wire block length of a message is only added to a pointer where a member follows the header
+  let follows := m.fields.any (fun f => !Scope.constField s.types f) || !m.groups.isEmpty || !m.datas.isEmpty
+  [⟨entity, s.headerType, "schemaId", false⟩, ⟨entity, s.headerType, "templateId", false⟩,
+   ⟨entity, s.headerType, "version", false⟩, ⟨entity, s.headerType, "blockLength", follows⟩,
+   ⟨entity, s.headerType, "numGroups", false⟩, ⟨entity, s.headerType, "numVarDataFields", false⟩] ++
+  m.datas.map (fun d => ⟨entity ++ "." ++ d.name, d.type, "length", true⟩) ++
+  groupsHeaderUses (entity ++ ".") m.groups
+
+def headerUses (s : SchemaDef) : List HeaderUse := s.messages.flatMap (messageHeaderUses s)
+
+def HeaderUse.isFloat (types : List Elem) (u : HeaderUse) : Bool :=
+  match Literals.headerMemberPrim? types u.header u.member with
+  | some p => p.isFloat
+  | none => false
+
+/-- bf3e3ae: no header member used as an integer has type `float` / `double` -/
+def headerTypesAccepted (s : SchemaDef) : Bool := (headerUses s).all (fun u => !u.isFloat s.types)
+
+/-- header members whose type cannot be used where the runtime does arithmetic with it -/
+def headerTypeProblems (s : SchemaDef) : List Scope.Problem :=
+  ((headerUses s).filter (fun u => u.breaks && u.isFloat s.types)).map
+    (fun u => ⟨"floating-point-header-member", u.entity, u.member, "all"⟩)
+
+/-! ### enumerators of one enum with the same value -/
+
+/-- the first number that occurs twice -/
+def dupInt : List Int → Bool
+  | [] => false
+  | x :: xs => xs.contains x || dupInt xs
+
+/-- the values the enumerators of an enum over `enc` denote (the character code for `char`) -/
+def enumValues (types : List Elem) (enc : String) (values : List ValidValue) : List Int :=
+  let pn := match encPrim types enc with | .ok x => x | .error _ => ""
+  match Literals.primOf? pn with
+  | some p => values.filterMap (fun v => Literals.enumeratorValue (pn == "char") p v.value)
+  | none => []
+
+mutual
+  /-- two enumerators of one enum with the same value: duplicate `case` in the generated `switch` -/
+  def elemDuplicateCases (types : List Elem) (path : String) : Elem → List Scope.Problem
+    | .enum n enc _ values _ =>
+      if dupInt (enumValues types enc values) then [⟨"duplicate-case", path ++ n, n, "all"⟩] else []
+    | .composite n _ elems _ => elemsDuplicateCases types (path ++ n ++ ".") elems
+    | _ => []
+  def elemsDuplicateCases (types : List Elem) (path : String) : List Elem → List Scope.Problem
+    | [] => []
+    | e :: es => elemDuplicateCases types path e ++ elemsDuplicateCases types path es
+end
+
+def duplicateCaseProblems (s : SchemaDef) : List Scope.Problem := elemsDuplicateCases s.types "types." s.types
+
+/-- c7e26c2: the valid values of every enum are pairwise distinct (as numbers / characters) -/
+def enumValuesDistinct (s : SchemaDef) : Bool := (duplicateCaseProblems s).isEmpty
+
+/-! ### acceptance -/
+
 def acceptedB (s : SchemaDef) : Bool :=
   Scope.namesAccepted s && Scope.uniqueAccepted s && Literals.valuesAccepted s && Literals.rangesAccepted s &&
-  Literals.layoutAccepted s
+  Literals.layoutAccepted s && headerTypesAccepted s && Literals.fillersAccepted s && enumValuesDistinct s
+
+/-- the validator's rules as C08 states and proves them (`violations s = [] ↔ check s = .ok ()`), evaluated by the
+    driver next to `acceptedB`: a schema they reject is not called accepted either -/
+def rulesHold (s : SchemaDef) : Bool := Spec.Rules.rulesB s
 
 end Sbepp.Gen
